@@ -33,6 +33,8 @@ func main() {
 	fixtures := fs.String("fixtures", "/verif/fixtures", "key fixtures")
 	only := fs.String("only", "", "file with input ids to execute (replay)")
 	parts := fs.String("parts", "", "comma separated parts: keys,rulesets,remote,raw")
+	cursor := fs.String("cursor", "", "file that names the input being fed")
+	except := fs.String("except", "", "input ids not to feed, one per line")
 	_ = fs.Parse(os.Args[2:])
 
 	if os.Args[1] == "fixtures" {
@@ -87,6 +89,17 @@ func main() {
 		}
 
 		f.Close()
+	}
+
+	opt.Cursor = *cursor
+
+	if *except != "" {
+		opt.Except = map[string]bool{}
+		for _, id := range strings.Split(*except, "\n") {
+			if id = strings.TrimSpace(id); id != "" {
+				opt.Except[id] = true
+			}
+		}
 	}
 
 	w, err := trace.Create(*tracePath)
